@@ -133,6 +133,16 @@ type ContractFile struct {
 	Contracts []*Contract
 	Imports   map[string]string // name -> path
 	Globals   map[string][]uint64
+	FieldInvs []*FieldInv
+}
+
+// FieldInv is a global invariant of one ghost field: assumed at every read, re-established by every
+// verified function for the locations it modifies.
+type FieldInv struct {
+	Ghost  string
+	Expr   string
+	FnName string
+	Line   int
 }
 
 var reHead = regexp.MustCompile(`^(func|iface)\s+(\S+)\s*(?::\s*(.*))?$`)
@@ -154,6 +164,7 @@ func parseContractFile(path, pkgDir string, src []byte) (*ContractFile, error) {
 		cf.Imports[name] = p
 	}
 	var cur *Contract
+	macros := map[string]string{}
 	lines := strings.Split(string(src), "\n")
 	for i := 0; i < len(lines); i++ {
 		ln := strings.TrimSpace(lines[i])
@@ -175,6 +186,24 @@ func parseContractFile(path, pkgDir string, src []byte) (*ContractFile, error) {
 			continue
 		}
 		lineNo := i + 1
+		if strings.HasPrefix(body, "macro ") {
+			parts := strings.SplitN(strings.TrimPrefix(body, "macro "), "=", 2)
+			if len(parts) != 2 {
+				return nil, fmt.Errorf("%s:%d: bad macro", path, lineNo)
+			}
+			macros[strings.TrimSpace(parts[0])] = strings.TrimSpace(parts[1])
+			continue
+		}
+		if strings.Contains(body, "$") {
+			var names []string
+			for k := range macros {
+				names = append(names, k)
+			}
+			sort.Slice(names, func(a, b int) bool { return len(names[a]) > len(names[b]) })
+			for _, k := range names {
+				body = strings.ReplaceAll(body, "$"+k, macros[k])
+			}
+		}
 		if m := reHead.FindStringSubmatch(body); m != nil {
 			cur = &Contract{PkgDir: pkgDir, Kind: m[1], Target: m[2], Flags: map[string]bool{}, Loops: map[int]*LoopSpec{}, Cbs: map[string]*CbSpec{}, Line: lineNo}
 			cur.Props = strings.Fields(m[3])
@@ -195,6 +224,14 @@ func parseContractFile(path, pkgDir string, src []byte) (*ContractFile, error) {
 				vals = append(vals, v)
 			}
 			cf.Globals[strings.TrimSpace(parts[0])] = vals
+			continue
+		}
+		if strings.HasPrefix(body, "fieldinv ") { // fieldinv ghost_expiresAt: v >= 0
+			parts := strings.SplitN(strings.TrimPrefix(body, "fieldinv "), ":", 2)
+			if len(parts) != 2 {
+				return nil, fmt.Errorf("%s:%d: bad fieldinv", path, lineNo)
+			}
+			cf.FieldInvs = append(cf.FieldInvs, &FieldInv{Ghost: strings.TrimSpace(parts[0]), Expr: strings.TrimSpace(parts[1]), Line: lineNo})
 			continue
 		}
 		if cur == nil {
@@ -225,7 +262,7 @@ func parseContractFile(path, pkgDir string, src []byte) (*ContractFile, error) {
 			for _, fl := range strings.Fields(rest) {
 				cur.Flags[fl] = true
 			}
-		case "assumed", "nopanic", "pure", "inline":
+		case "assumed", "nopanic", "pure", "inline", "fresh", "panics", "noframe", "noreturn", "may-panic", "nilcheck":
 			cur.Flags[kw] = true
 			if rest != "" {
 				cur.Notes = append(cur.Notes, kw+": "+rest)
@@ -876,7 +913,7 @@ func (g *genCtx) generate(cf *ContractFile) (string, error) {
 				case strings.Contains(raw, "::"):
 					parts := strings.SplitN(raw, "::", 2)
 					mi.Kind, mi.Type, mi.Field = "whole", parts[0], parts[1]
-				case strings.HasPrefix(raw, "ghost_"):
+				case strings.HasPrefix(raw, "ghost_") && strings.HasSuffix(raw, ")"):
 					j := strings.Index(raw, "(")
 					if j < 0 || !strings.HasSuffix(raw, ")") {
 						return nil, fmt.Errorf("bad ghost modifies item %q", raw)
@@ -940,6 +977,19 @@ func (g *genCtx) generate(cf *ContractFile) (string, error) {
 			}
 		}
 		_ = fd
+	}
+	for _, fi := range cf.FieldInvs {
+		o := g.pkg.Scope().Lookup(fi.Ghost)
+		if o == nil {
+			return "", fmt.Errorf("%s:%d: fieldinv: no stub %s", cf.Path, fi.Line, fi.Ghost)
+		}
+		sig, ok := o.Type().(*types.Signature)
+		if !ok || sig.Results().Len() != 1 {
+			return "", fmt.Errorf("%s:%d: fieldinv: %s is not a ghost stub", cf.Path, fi.Line, fi.Ghost)
+		}
+		seq++
+		fi.FnName = fmt.Sprintf("Zfinv_%d_%s", seq, sanitize(fi.Ghost))
+		fmt.Fprintf(&body, "func %s(v %s) bool {\n\treturn %s\n}\n\n", fi.FnName, g.typeStr(sig.Results().At(0).Type()), implTransform(fi.Expr))
 	}
 	var out strings.Builder
 	out.WriteString("//go:build verif\n\npackage " + g.pkg.Name() + "\n\n")
